@@ -37,6 +37,7 @@ def is_send(c, tx):
 def run(chk, tier):
     prog, info = common.program("all")
     common.note_extraction(chk, info, prog)
+    common.vacuity(chk, ['R-PANIC', 'R-TEMPLATE'])
     chk.explanation = ("In-order, gap-free delivery over all upload histories, delays, faults and stop times is a statement about interleavings of an uploader and a "
                        "retry schedule and is NOT decided. Decided, as necessary conditions, from the value-numbered summary of the polling loop (pre-transform "
                        "coroutine MIR under the await model): every way round the loop first polls the stop channel, then derives the next identifier from the cursor "
